@@ -13,7 +13,7 @@ CHECKS = {
              "operands compound and depth 3), model-checks the intended bracket rule of the spec against the spec's own Pratt parser "
              "(ParseBack), then each tree is built with the real operators, rendered under six dialect contexts and the real token "
              "stream is parsed back by the same TLA+ parser inside TLC; canonical trees must agree. Criteria combined by the API rather than by an operator (repeated "
-             "filter / where / having / prewhere / conflict-where calls, filter(a, b), Criterion.all / any) are parsed back against the conjunction / disjunction of their parts; the trees are also rendered at eight clause positions. A failing tree is "
+             "filter / where / having / prewhere / conflict-where calls, filter(a, b), Criterion.all / any) are parsed back against the conjunction / disjunction of their parts; the trees are also rendered at eight clause positions; operands that begin and end with a bracketed group and double / triple negations over groups are part of both tiers. A failing tree is "
              "explained only by a known finding naming the same parent / child / side edge UNDER THE SAME enclosing operator. Exhaustive within the bound, "
              "which is the level the property (a product over operator triples) needs.",
         ref="6/C06", technique="TLA+ reference parser (PT_Expr) + TLC enumeration of trees + trace judging of real renderings (J_C06)"),
@@ -21,7 +21,7 @@ CHECKS = {
         text="PT_Sharing models the @builder protocol as a heap (shallow copy shares or re-copies each container attribute; a method body "
              "rebinds, appends in place, or mutates a shared element). TLC proves Frozen for the intended sharing tables, explores the model "
              "with the tables MEASURED on the live code (predicting violating histories), and the same run enumerates every call tree (any live "
-             "object as receiver) of <=2 calls over all ~50 labels of each of 85 scenarios (class x seed state x dialect builder), 3 calls over labels "
+             "object as receiver) of <=2 calls over all ~50 labels of each of ~90 scenarios (class x seed state x dialect builder, incl. tables taken as attributes of one Schema object), 3 calls over labels "
              "with an observed in-place effect. Every tree is executed on the real library with all live objects observed after each step; "
              "J_Frozen (TLC) checks each recorded execution against the protocol: no earlier object changes (Frozen) and every object made in a branching "
              "history equals the one its own lineage gives when executed alone (PT_Sharing!Functional: sibling independence). Labels that pass one shared "
@@ -31,7 +31,7 @@ CHECKS = {
     "C08": dict(
         text="PT_Dialect gives the convention table Conv[d] (identifier quote, placeholder style and numbering, boolean / array / interval forms, set-operand "
              "bracketing, row-limiting vocabulary), Broken(toks, d) = the conventions a token stream breaks, and Norm (conventions erased). TLC enumerates 13 "
-             "dialect-sensitive elements (incl. backslash strings and JSON documents: the escape convention) x 14 nesting constructs (incl. a select as function argument in the select list / in ORDER BY, as comparison operand, as CASE result) at depth 1 and 2; each program is rendered under the six dialect classes twice - natively built, and "
+             "dialect-sensitive elements (incl. backslash strings and JSON documents: the escape convention) x 17 nesting constructs (incl. a select as function argument in the select list / in ORDER BY, as comparison operand, as CASE result, the set operation's own ORDER BY, INSERT .. SELECT with and without an alias on the target) at depth 1 and 2; each program is rendered under the six dialect classes twice - natively built, and "
              "with the inner parts built by the generic classes - and J_C08 (TLC) requires: no convention broken at any depth, mixed-built = natively built token "
              "streams, and Norm-equality over all ordered dialect pairs for the neutral subset.",
         ref="6/C08", technique="TLA+ convention table and normalisation (PT_Dialect); TLC element x nesting product rendered natively and mixed; TLC judge (J_C08)"),
@@ -45,8 +45,8 @@ CHECKS = {
     "C10": dict(
         text="PT_Embed gives per embedding position what may surround the stand-alone text (brackets, alias) and the relation EmbedsVerbatim: outer tokens = "
              "frame-before . stand-alone inner tokens (placeholders renumbered) . frame-after, where the frame is read off the same outer statement around a "
-             "benign inner query and must agree with Embed (FrameOK). TLC enumerates ~95 inner queries - an aliased term of 9 term classes in each inner clause "
-             "(select, where, group by, having, order by, join on, paginated), nested and parameter-carrying inner queries, set operations, queries with the dialect's own clause (MySQL modifiers, DISTINCT ON, TOP) or hints, DML..RETURNING bodies (PostgreSQL CTEs) - x 29 "
+             "benign inner query and must agree with Embed (FrameOK). TLC enumerates ~97 inner queries - an aliased term of 9 term classes in each inner clause "
+             "(select, where, group by, having, order by, join on, paginated), nested and parameter-carrying inner queries, set operations, queries with the dialect's own clause (MySQL modifiers, DISTINCT ON, TOP) or hints, selects without a FROM of their own, DML..RETURNING bodies (PostgreSQL CTEs) - x 29 "
              "positions (FROM, JOIN, IN, comparison, select item, CTE body, INSERT..SELECT, set-operation base / operand, CREATE TABLE AS, operands inside bracketed / "
              "negated groups, JOIN ON, HAVING, function argument, CASE branch, ORDER BY / GROUP BY item, SET and DO UPDATE value, and the main ones again inside an outer statement that qualifies its columns) x 6 dialects. Both renderings come from the real "
              "code (no reference renderer); J_C10 (TLC) evaluates the relation and reports the inner clause where the embedded text departs.",
@@ -56,18 +56,18 @@ CHECKS = {
              "decided against the current sources), the qualifier of every reference QualOf (alias always, name iff namespaces are needed) and name positions "
              "(INSERT columns, SET targets, ON CONFLICT targets, USING) that stay bare, conflict predicates and DO UPDATE assignments (always qualified; MySQL's ON DUPLICATE KEY "
              "UPDATE never); QualSeq gives the expected <<clause, qualifier, column>> sequence per "
-             "statement kind and dialect, and TLC checks RefQualified on it. TLC grows ~19k statements: 5 kinds x 5 base source shapes (plain, aliased, schema, "
-             "subquery, CTE reference) x 10 second-source shapes (FROM / JOIN ON / USING / CROSS over plain, aliased, subquery) x up to 2 (quick) / 3 (thorough) clause calls holding a field of an in-scope or foreign source. "
+             "statement kind and dialect, and TLC checks RefQualified on it. TLC grows ~65k statements: 5 kinds x 5 base source shapes (plain, aliased, schema, "
+             "subquery, CTE reference) x 10 second-source shapes (FROM / JOIN ON / USING / CROSS over plain, aliased, subquery) x up to 2 (quick) / 3 (thorough) clause calls (select, where, prewhere, group by, having, order by, set, returning, conflict target / handler) holding a field of an in-scope or foreign source. "
              "Each runs under the six dialect classes; J_C11 (TLC) folds the logged calls and compares the qualifier projection of the real tokens with QualSeq.",
         ref="6/C11", technique="TLA+ builder state machine with NeedsNS/QualSeq (PT_Builder); TLC-grown statements replayed; TLC trace judge on the qualifier projection (J_C11)"),
     "C12": dict(
         text="PT_Builder!AliasSeq gives the expected <<clause, alias>> occurrences: a select item prints its alias once, GROUP BY / ORDER BY write an alias only "
              "if the select list defines it (and the dialect allows GROUP BY aliases), operands never print theirs; TLC checks RefAliasOnce on it. TLC enumerates "
-             "(14 PT_Expr term kinds + 23 further Term classes built by name, each carrying a unique alias) x 48 positions (defining positions, the term as the whole WHERE / HAVING / JOIN ON condition, every operand "
+             "(14 PT_Expr term kinds + 23 further Term classes built by name, each carrying a unique alias) x 50 positions (defining positions, GROUP BY / ORDER BY over a column that is merely NAMED like an alias, the term as the whole WHERE / HAVING / JOIN ON condition, every operand "
              "slot of arithmetic / function / CASE / comparison incl. right operands, DISTINCT aggregates and window functions, WHERE, HAVING, GROUP BY, ORDER BY, JOIN ON, "
              "INSERT values, SET values, GROUP BY / ORDER BY by alias or by expression, references made before the select list defines the alias, after it was replaced "
              "by *, or with a late alias) x 6 dialects, each also inside a branching, render-interleaved history (thorough: also parameterised and embedded as FROM / IN "
-             "subquery, CTE, UNION operand); J_C12 (TLC) folds the calls and classifies differences of the alias projection of the real tokens as "
+             "subquery, CTE, UNION operand); ORDER BY of a set operation follows PT_Builder!SetopAliasSeq (an alias is a reference only if the FIRST operand defines it; every term class in the first / a later / both operands; judge J_C12S). J_C12 (TLC) folds the calls and classifies differences of the alias projection of the real tokens as "
              "missing / spurious / duplicated / dangling-reference. Term subclasses of the live module that no generated kind reaches are listed in the evidence.",
         ref="6/C12", technique="TLA+ AliasSeq over the builder state (PT_Builder); TLC class x position product replayed; TLC trace judge on the alias projection (J_C12)"),
     "C13": dict(
@@ -83,9 +83,9 @@ CHECKS = {
         text="PT_Builder!Raises and RenderRaises give, for every call in every abstract state, the exception class that must be raised (join "
              "criterion sources vs FROM / joined / CTE / joined item under the library's table equality; conflict-handler routing; statement-kind "
              "one-shots), and TLC checks GuardsExact on the spec (agreement with an independently written availability predicate) on all "
-             "join programs. TLC grows every program of the families by transitions: joins (5 base shapes x CTE x prior join x 9 items x ~410 criteria "
-             "over 13 source shapes incl. aliased, schema, two databases, temporal, equal-but-distinct, subquery, set operation, CTE; both operand orders; function operands), all "
-             "orders of <=3 conflict-handler calls, all <=3-call statement-kind switches, set-operation arities, CASE, RETURNING x statement kind x 19 term shapes (own / joined / foreign column, star, expression, CASE, aggregate, function and tuple over a foreign column), "
+             "join programs. TLC grows every program of the families by transitions: joins (5 base shapes x CTE x prior join x 10 items x ~330 criteria "
+             "over 15 source shapes incl. aliased, schema, two databases, temporal, equal-but-distinct, aliased and un-aliased subqueries, set operation, CTE, columns written without a table; both operand orders; function operands), all "
+             "orders of <=3 conflict-handler calls on INSERT .. VALUES and INSERT .. SELECT, all <=3-call statement-kind switches, set-operation arities, CASE, RETURNING x statement kind x 19 term shapes (own / joined / foreign column, star, expression, CASE, aggregate, function and tuple over a foreign column), "
              "DDL / temporal / rollup one-shots. Each is executed on the real library and J_C14 (TLC) compares every call's and the render's exception "
              "class with the spec in both directions (missed / false rejection / wrong class).",
         ref="6/C14", technique="TLA+ guard functions over the abstract builder state (PT_Builder!Raises); TLC-grown programs replayed; TLC trace judge (J_C14)"),
@@ -113,7 +113,7 @@ CHECKS = {
         text="PT_RefSql!RefFull is the reference transcription of an abstract statement (PT_Builder state) into plain SQLite text: every operator application bracketed, "
              "every column qualified by the alias-or-name of its source, explicit AS, LIMIT -1 for a lone offset. TLC grows programs of the relational core (12 bases: "
              "plain / aliased / inner, left, cross, comma and self joins / subquery source / grouped / insert / upsert / update plain, FROM, JOIN / delete; clause units "
-             "with ~150 select terms covering every arithmetic parent/child/side pair, ~48 criteria (incl. membership in an empty list), DISTINCT, ORDER BY, LIMIT/OFFSET/slice, HAVING, window functions (partition / order lists built call by call, ROWS / RANGE frames), "
+             "with ~150 select terms covering every arithmetic parent/child/side pair, ~48 criteria (incl. membership in an empty list), DISTINCT, ORDER BY, LIMIT/OFFSET/slice, HAVING, window functions (partition / order lists built call by call, ROWS / RANGE frames; LAG / LEAD with their optional arguments, ranking and value functions), ORDER BY a column name that a select item carries as alias, "
              "INSERT rows / INSERT..SELECT / REPLACE, upsert actions incl. upsert from SELECT, SET expressions; quick: one unit, thorough: two) and prints each with RefFull and "
              "its suspects; SELECT programs are also nested (FROM / IN subquery, sorted derived table under an outer LIMIT, unwrapped UNION / INTERSECT / EXCEPT). Programs whose "
              "plain transcription the engine rejects with the same diagnosis are counted, not judged. The real SQLite engine prepares both texts; identical EXPLAIN "
@@ -124,12 +124,12 @@ CHECKS = {
     "C04": dict(
         text="PT_Param specifies the dialect placeholder text, the literal spans that decode to a value, and ParamEquiv as a parallel walk of the inline and the "
              "parameterised token streams (identical at every non-placeholder position; the k-th placeholder has the dialect's text and stands where the inline "
-             "stream has one literal decoding to values[k]; all values consumed, in order, plain data) plus Residue (no parameterised value's text left). TLC grows "
+             "stream has one literal decoding to values[k]; all values consumed, in order, plain data) plus Residue (no parameterised value's text left) and ExemptLost (a constant exempt by allow_parametrize=False is a literal of both renderings). TLC grows "
              "value-bearing programs: 5 statement kinds, ~25 value-bearing clause calls (constants, arithmetic, CASE, function args, arrays, GROUP BY expressions, "
              "HAVING, JOIN ON, ORDER BY, WHERE =/IN/BETWEEN/bool, LIMIT/OFFSET, INSERT rows, upsert updates, SET) and 20 further value-bearing term classes built by name "
              "(aggregate / analytic FILTER, window partition / order, bitwise, LIKE, JSON operators, tuples, nested CASE, NOT, subquery operands ...) with pairwise distinct fresh values (integers, strings, floats in plain and exponent notation compared by value, booleans, arrays) in up to 2 "
              "(quick) / 3 (thorough) clauses; each is placed at 6 nesting positions (top, subquery in FROM / IN / select item, set operation, CTE) and rendered both "
-             "ways under the 6 dialect classes; J_C04 (TLC) walks the two real token streams; SQLite executes both forms on a small database.",
+             "ways under the 6 dialect classes (get_sql with a parameterizer, get_parameterized_sql() without a context and with the caller's own parameterizer in the context must agree); J_C04 (TLC) walks the two real token streams; SQLite executes both forms on a small database.",
         ref="6/C04", technique="TLA+ parallel-walk relation between two real renderings (PT_Param); TLC-grown value-bearing programs; TLC judge (J_C04); sqlite3 execution of both forms"),
     "C05": dict(
         text="TLC proves on the specification that the intended string/identifier encoders round-trip through the reference lexer of every "
@@ -144,7 +144,7 @@ CHECKS = {
         text="TLC proves on the specification that the intended identifier encoder (quote, double embedded quotes) round-trips through the "
              "reference lexer of every dialect, stand-alone and embedded in a qualified reference. Then ~250 names (all strings of length <=2 "
              "over a 13-class alphabet incl. both quote characters, dots, spaces, brackets; keywords; mixed case; seeded Unicode) are placed at "
-             "~68 emission sites (incl. aliases of UPDATE / DELETE targets, which must also be DEFINED next to their table when they qualify a column, and CREATE TABLE AS SELECT) x 6 dialects through the real builders, and the same name-bearing objects (tables with their schemas, fields) are rendered under two "
+             "~75 emission sites (incl. tables made by the query class's factories and statements started from the table shortcuts, aliases of UPDATE / DELETE targets, which must also be DEFINED next to their table when they qualify a column, and CREATE TABLE AS SELECT) x 6 dialects through the real builders, and the same name-bearing objects (tables with their schemas, fields) are rendered under two "
              "dialects with different quote characters in a row; SQLite prepares the SQLite-dialect statements against a schema whose objects carry the name; TLC lexes the emitted characters and requires every occurrence of the "
              "benign marker identifier to have become one identifier token in the dialect's quote character decoding to the name, nothing else "
              "changed. Exhaustive over alphabet x site x dialect within the bound.",
@@ -154,14 +154,14 @@ CHECKS = {
              "every other reference unchanged, idempotent) on every generated expression tree and every pair of sources. Conformance: ~55 term "
              "templates (every Term subclass with a table slot, at each operand position, table-qualified stars as function arguments) and 30 statement clause-slot templates (FROM, JOIN item/ON/USING, "
              "SELECT, WHERE, GROUP BY, HAVING, ORDER BY, SET, RETURNING, DISTINCT ON, ON CONFLICT, CTE, nested subqueries, set operations, single-source statements "
-             "with a foreign WHERE) x 5 (old,new) pairs (plain, aliased, schema, new = another source of the statement) x dialect builders are built on the real library three ways - replaced, rebuilt with the new table from "
+             "with a foreign WHERE) x 5 (old,new) pairs (plain, aliased, schema, new = another source of the statement) x dialect builders are built on the real library three ways - replaced (looked at twice: field / table walk, second rendering), rebuilt with the new table from "
              "the start, and the receiver before/after - and TLC (J_Replace) compares the token streams.",
         ref="6/C16", technique="TLA+ Replace operator with ReplaceComplete model-checked (PT_Terms); TLC judge of replaced vs rebuilt renderings (J_Replace)"),
     "C17": dict(
         text="TLC generates the full cross product of table constructions (name x 5 schema forms x alias x 3 temporal clauses x 2 query classes = 120), "
-             "and ~500 expression trees (incl. tuples / arrays / IN lists with a leading constant) over fields of three tables, two aliases of one table and one table name in two schemas, with overlapping column names in every operand order, computing FieldsOf/TablesOf "
+             "and ~560 expression trees (incl. tuples / arrays / IN lists with a leading constant, the library's own aggregate / analytic / cast / multi-argument function classes) over fields of three tables, two aliases of one table and one table name in two schemas, with overlapping column names in every operand order, computing FieldsOf/TablesOf "
              "on each tree. The executor records ==, !=, hash and set/dict/list membership matrices for the table universes (and for schemas, "
-             "aliased queries, query builders and a universe of objects of different kinds sharing one name) before and after rendering, and fields_()/tables_ of each built "
+             "aliased queries, query builders and a universe of objects of different kinds sharing one name) before and after rendering them AND the statements that contain them, the library's own join-membership decision for every pair of tables (automatic alias exactly when j == i: PT_Eq!JoinMember), and fields_()/tables_ of each built "
              "expression - also after every node was hashed, the expression re-targeted with replace_table and combined with the original. TLC evaluates the "
              "laws over all pairs and triples (reflexive, symmetric, transitive, == => equal hash, != = not ==, membership = linear search, "
              "stable under rendering) and compares the collections with the oracle. Exhaustive over the variant product.",
